@@ -752,3 +752,33 @@ reg(P("C11", "calls", "c11",
       sig_fn=_calls_sig, mutate=_calls_mutate(("sentinel", "ok"), False),
       design_ref="DESIGN.md §6 C11",
       technique="fault enumeration in child processes; TLC trace validation against the Containment monitor"))
+
+
+def _c14_mutate(rec):
+    if rec.get("ev") == "one" and rec.get("kind") == "c14" and isinstance(rec.get("got"), str):
+        rec["got"] = rec["got"] + "00"
+        return rec
+    return None
+
+
+reg(P("C14", "coders", "c14",
+      mc={"quick": [("LazyRegistryMC", "LazyRegistry_nested.cfg", 300), ("LazyRegistryMC", "LazyRegistry_cyclic.cfg", 300),
+                    ("CoderPool", "CoderPool_ok.cfg", 300),
+                    ("LazyRegistryMC", "LazyRegistry_bug.cfg", 300, "violation"), ("CoderPool", "CoderPool_bug.cfg", 300, "violation")],
+          "thorough": [("LazyRegistryMC", "LazyRegistry_nested.cfg", 300), ("LazyRegistryMC", "LazyRegistry_cyclic.cfg", 300),
+                       ("CoderPool", "CoderPool_ok.cfg", 300),
+                       ("LazyRegistryMC", "LazyRegistry_bug.cfg", 300, "violation"), ("CoderPool", "CoderPool_bug.cfg", 300, "violation")]},
+      traces=[("", "CodersTrace", "CodersTrace.cfg")],
+      level="model_checking",
+      rule="observations = gate-forced first use (the constructor of a named struct coder parked right after publication "
+           "while another goroutine codes a value that embeds the type; encode and decode; fresh generated types), "
+           "free-running simultaneous first use of fresh nested and mutually recursive types from 8 goroutines (encode and "
+           "decode), every sequence of up to 2 (thorough 3) uses out of 7 kinds (reference / simple mode, class "
+           "definitions, failing inputs, decoder options, defaults, dangling reference) of pooled encoders and decoders "
+           "against fresh coders, and 9 inputs x 8 destinations x {slice, reader, pooled} decoders whose input buffer is "
+           "overwritten (and whose decoder is recycled) after decoding; a case is one scenario",
+      assumptions=["absence of data races is observed (thorough: with the race detector build), not proved: TLA+ states are "
+                   "sequentially consistent", "48 fresh named type families per process"],
+      sig_fn=lambda reset, event: {"what": _re.sub(r"[0-9]+", "#", reset.get("what", ""))[:60]},
+      mutate=_c14_mutate, design_ref="DESIGN.md §6 C14",
+      technique="TLC model checking of LazyRegistry.tla and CoderPool.tla + gate-forced schedules and pooled-coder sequences on the real coders judged by Coders!C14Why"))
